@@ -44,6 +44,7 @@ class VLoop(asyncio.BaseEventLoop):
         self._vt_us = 0
         self._seq = itertools.count()
         self.errors: List[Dict[str, Any]] = []
+        self.killed: Optional[BaseException] = None
         self.set_exception_handler(self._on_error)
 
     # --- clock ---------------------------------------------------------------
@@ -78,10 +79,19 @@ class VLoop(asyncio.BaseEventLoop):
         """Run exactly the handles that are ready now (one loop iteration)."""
         n = len(self._ready)
         for _ in range(n):
+            if not self._ready:
+                break
             h = self._ready.popleft()
             if h._cancelled:
                 continue
-            h._run()
+            try:
+                h._run()
+            except (KeyboardInterrupt, SystemExit) as exc:
+                # asyncio lets these two escape from a task straight out of run_forever():
+                # the real worker's loop (and process) would stop here
+                self.killed = exc
+                self._ready.clear()
+                break
         h = None
 
     def run_to_quiescence(self) -> int:
